@@ -29,7 +29,8 @@ type c06Send struct {
 func (c *c06Send) Coq() string {
 	op := map[string]string{"message": "OpMessage", "notification": "OpNotification", "request": "OpRequestCommand",
 		"response": "OpResponseCommand", "process": "OpProcessCommand"}[c.Op]
-	return coqfmt.App("GSend", coqfmt.Bool(c.Role == "client"), coqState(c.State), coqfmt.Bool(c.Connected), op,
+	est := c.Stage == "established" || c.Stage == "finishing"
+	return coqfmt.App("GSend", coqfmt.Bool(c.Role == "client"), coqfmt.Bool(est), coqState(c.State), coqfmt.Bool(c.Connected), op,
 		coqfmt.Bool(c.OK), coqfmt.Nat(c.Emitted))
 }
 
@@ -243,6 +244,9 @@ func clientStages() ([]*c06Send, error) {
 		{"finishing", []string{authreq, est}, "finishing"},
 		{"finished", []string{authreq, est}, "finished"},
 		{"failed", []string{authreq, `{"state":"failed","id":"S1","reason":{"code":1,"description":"no"}}`}, ""},
+		// the server ends the established session on its own and leaves the connection open
+		{"failed-after-established", []string{authreq, est, `{"state":"failed","id":"S1","from":"postmaster@verif.test/srv","reason":{"code":1,"description":"no"}}`}, ""},
+		{"finished-by-server", []string{authreq, est, `{"state":"finished","id":"S1","from":"postmaster@verif.test/srv"}`}, ""},
 	}
 	for _, st := range stages {
 		cmem, smem := memconn.Pipe(0)
